@@ -145,6 +145,55 @@ class Server:
         content = self.run(resp.content())
         return resp.code, content
 
+    # ---- one persistent HTTP/1.1 connection (keep-alive): several requests through the same server-side channel ----
+    def open_conn(self):
+        from twisted.web.server import Site
+        from twisted.internet.address import IPv4Address
+        from twisted.internet.testing import StringTransportWithDisconnection
+        site = Site(self.http.get_resource())
+        proto = site.buildProtocol(IPv4Address("TCP", "127.0.0.1", 40001))
+        tr = StringTransportWithDisconnection()
+        tr.protocol = proto
+        proto.makeConnection(tr)
+        return (proto, tr)
+
+    def raw_conn(self, conn, method, path, headers, body):
+        from http.client import HTTPResponse, IncompleteRead
+        from io import BytesIO
+        proto, tr = conn
+        if isinstance(method, str):
+            method = method.encode()
+        body = body or b""
+        req = method + b" " + path.encode() + b" HTTP/1.1\r\nHost: 127.0.0.1\r\n"
+        for k, v in headers:
+            req += (k if isinstance(k, bytes) else k.encode()) + b": " + (v if isinstance(v, bytes) else v.encode()) + b"\r\n"
+        req += b"Content-Length: %d\r\n\r\n" % len(body) + body
+        tr.clear()
+        proto.dataReceived(req)
+
+        class _Sock:
+            def __init__(self, b):
+                self.f = BytesIO(b)
+
+            def makefile(self, *a, **kw):
+                return self.f
+        for _ in range(20000):
+            try:
+                vr.advance(0)
+            except Exception as ex:
+                self.raised.append(type(ex).__name__)
+            data = tr.value()
+            if b"\r\n\r\n" in data:
+                try:
+                    resp = HTTPResponse(_Sock(data), method=method.decode())
+                    resp.begin()
+                    content = resp.read()
+                    if resp.length in (None, 0):
+                        return resp.status, content
+                except (IncompleteRead, ValueError):
+                    pass
+        raise RuntimeError("no complete response on the persistent connection")
+
     # ---- observation of the share files ----
     def lease_ids(self, leases):
         out = []
@@ -577,10 +626,10 @@ def after(g, r, status, body):
 # --------------------------------------------------------------------------------------------
 # mode authz (C30)
 # --------------------------------------------------------------------------------------------
-def exec_raw(g, srv, r):
+def exec_raw(g, srv, r, conn=None):
     m, p, headers, body = concretize(g.rng, r)
     before = srv.digest()
-    status, content = srv.raw(m, p, headers, body)
+    status, content = srv.raw(m, p, headers, body) if conn is None else srv.raw_conn(conn, m, p, headers, body)
     same = srv.digest() == before
     ab = abstract_body(r["ep"], status, content)
     hasdata = any(content[i:i + 3] in g.known for i in range(len(content) - 2))
@@ -699,6 +748,19 @@ def cross_upload_scenario(g, srv, events):
                                         "a": g.args(ep, srv, si, sh)}))
 
 
+def keepalive_scenario(g, srv, events):
+    """one persistent connection: a request with the right swissnum, then requests without it (or with a wrong one) through the
+    same server-side channel - every request is authorised on its own"""
+    rng = g.rng
+    conn = srv.open_conn()
+    events.append(exec_raw(g, srv, well_formed(g, srv, rng.choice(["version", "ilist", "mlist", "rtw", "alloc"])), conn=conn))
+    for _ in range(rng.randint(2, 4)):
+        r = well_formed(g, srv, rng.choice(LEGIT_OPS))
+        if rng.random() < 0.8:
+            r["auth"] = list(rng.choice([a for a in AUTH_CLASSES if a != ["correct"]]))
+        events.append(exec_raw(g, srv, r, conn=conn))
+
+
 def authz_trace(rng, work, combos, nrandom, expiring=False):
     srv = Server(work, True, expiring)
     g = Gen(rng, 0xE0)
@@ -710,7 +772,7 @@ def authz_trace(rng, work, combos, nrandom, expiring=False):
         todo = [("combo", c) for c in combos] + [("random", None)] * nrandom
         if expiring:
             todo += [("expiry", None)] * 2
-        todo += [("cross", None)]
+        todo += [("cross", None), ("keepalive", None)]
         rng.shuffle(todo)
         for kind, c in todo:
             if kind == "expiry":
@@ -718,6 +780,9 @@ def authz_trace(rng, work, combos, nrandom, expiring=False):
                 continue
             if kind == "cross":
                 cross_upload_scenario(g, srv, events)
+                continue
+            if kind == "keepalive":
+                keepalive_scenario(g, srv, events)
                 continue
             if kind == "combo":
                 ep, auth, hc = c
